@@ -15,6 +15,7 @@ impl Big {
     pub fn zero() -> Big {
         Big(vec![])
     }
+    #[allow(dead_code)]
     pub fn from_u128(mut v: u128) -> Big {
         let mut l = vec![];
         while v > 0 {
@@ -425,7 +426,7 @@ pub fn check_case(ti: &TargetInfo, lit: &Lit, ctx: Ctx, t: &mut Tally) {
     let form = lit.form();
     let obs = (ti.run)(&form, ctx);
     let exp = expected(ti, lit);
-    let mut bad = |msg: String, t: &mut Tally| {
+    let bad = |msg: String, t: &mut Tally| {
         t.violate(Violation {
             key: format!("C11 target={} form=`{}` ctx={:?} :: {}", ti.name, form, ctx, msg),
             what: format!("{} <- `{}` ({:?}): {}", ti.name, form, ctx, msg),
